@@ -360,7 +360,11 @@ func runOutputs(c *Ctx, prop string) {
 			for _, cont := range []string{"\x80\xb9", "\xb9", "\xba", "\x80\xba", "\x80"} {
 				for _, m1 := range stringMethods {
 					for _, m2 := range append(append([]string{}, stringMethods...), "PrintLiteralRedactable") {
-						first, last := Op{M: m1, S: strings.Repeat("p", pad) + tail}, Op{M: m2, S: cont + "public"}
+						body := strings.Repeat("p", pad)
+						if (pad+len(tail)+len(cont))%3 == 0 {
+							body = body[:pad/2] + endM + body[pad/2:] // a marker earlier in the same payload (the escaper is already copying)
+						}
+						first, last := Op{M: m1, S: body + tail}, Op{M: m2, S: cont + "public"}
 						split = append(split, []Op{first, last})
 						for _, mid := range mids {
 							split = append(split, []Op{first, mid, last}, []Op{first, mid, last, {M: "UnsafeString", S: "secret"}})
